@@ -77,7 +77,7 @@ func genC13(w *World, res *CheckResult) {
 	}
 	tmp := &CheckResult{Extra: map[string]interface{}{}}
 	genC10(w, tmp)
-	res.Obls = append(res.Obls, selectObls(tmp.Obls, `^ast\.Patch\[`)...)
+	res.Obls = append(res.Obls, selectObls(tmp.Obls, `^ast\.Patch\[`, `^module/rewrites-go-through-ast\.Patch$`)...)
 	// (d) the VM reports the location recorded for the opcode being executed: pp is the offset of that opcode
 	g := genRun(w)
 	res.Obls = append(res.Obls, selectObls(g.obls, `/post\[ip\]$`, `^vm\.VM\.Run/pre-sat$`)...)
